@@ -313,7 +313,8 @@ def c04():
     import engine_family
     # multi-cycle view: generated rule sets whose actions write through every path shape (incl. re-pointing F.P), the monitor
     # compares the whole fact after every firing (flags C04-facts-at-cycle / C04-final-facts)
-    eng = engine_family.evaluate("C04", [("core", 400, ["-variants", "fresh,second,multi"]), ("memo", 150, [])], ["C01", "C02", "C03"],
+    eng = engine_family.evaluate("C04", [("core", 400, ["-variants", "fresh,second,multi,json"]), ("memo", 150, []),
+                                         ("core", 150, ["-calls", "3"])], ["C01", "C02", "C03"],
                                  "a run in which some rule fired and the fact snapshot of the next cycle was compared with RunActions")
     ec = eng["cov"]
     extra = {"states": ec["states"], "transitions": ec["transitions"], "traces_validated_against_impl": ec["traces_validated_against_impl"],
